@@ -4,6 +4,11 @@ func init() {
 	mk := func(driver string, shards int, p string, budget float64) Scenario {
 		return Scenario{Name: "C19/" + driver, Build: schedTrack, Pkg: "internal", Test: "TestVerif_C19", Params: "driver=" + driver + ",P=" + p, Shards: shards, BudgetS: budget}
 	}
+	buf := func(shards int, p string, budget float64) Scenario {
+		sc := mk("R8-read-buffer", shards, p, budget)
+		sc.Build = schedTrackBuf
+		return sc
+	}
 	register(&Check{
 		ID: "C19", Level: "model_checking", Engine: "E4-HB", DesignRef: "DESIGN.md §4 C19, §3.5",
 		Technique: "happens-before (vector clock) race monitor evaluated as an invariant on every schedule of a stateless model-checking search (iterative preemption bounding) of the instrumented real Store",
@@ -13,11 +18,12 @@ func init() {
 		Assume:    []string{"race-free programs have sequentially consistent semantics, so exploring SC interleavings is exact once the invariant holds", "entry pool off (the README documents races with the pool on)"},
 		Quick: []Scenario{
 			mk("R1-save-vs-writes", 8, "2", 60), mk("R2-range-vs-expiry", 8, "2", 60), mk("R3-views-vs-eviction", 8, "2", 60), mk("R4-close-vs-all", 8, "2", 60),
-			mk("R5-loading", 8, "2", 60), mk("R6-update-vs-evict", 8, "2", 60), mk("R7-expiry-vs-ttl-update", 8, "2", 60),
+			mk("R5-loading", 8, "2", 60), mk("R6-update-vs-evict", 8, "2", 60), mk("R7-expiry-vs-ttl-update", 8, "2", 60), buf(8, "2", 60),
 		},
 		Thorough: []Scenario{
 			mk("R1-save-vs-writes", 16, "3", 900), mk("R2-range-vs-expiry", 16, "3", 900), mk("R3-views-vs-eviction", 16, "3", 900), mk("R4-close-vs-all", 16, "3", 900),
-			mk("R5-loading", 16, "3", 900), mk("R6-update-vs-evict", 16, "3", 900), mk("R7-expiry-vs-ttl-update", 16, "3", 900),
+			mk("R5-loading", 16, "3", 900), mk("R6-update-vs-evict", 16, "3", 900), mk("R7-expiry-vs-ttl-update", 16, "3", 900), buf(16, "3", 900),
+			{Name: "C19/free-running-race-crosscheck", Build: Build{Kind: "plain", Race: true}, Pkg: "internal", Test: "TestVerif_C19Race", Shards: 4, BudgetS: 60},
 		},
 	})
 }
